@@ -60,6 +60,20 @@ def r08a(model: Model, rr: RuleResult):
             vals = [d.value for d in cfg.reaching(cfg.node_for(f.node), it) if d.value is not None] or ([f.fi.module.assigns[it]] if it in f.fi.module.assigns else [])
             if vals and all(isinstance(v, ast.Set) and all(isinstance(e, ast.Constant) and e.value in ("GDEF", "GPOS", "GSUB", "MATH") for e in v.elts) for v in vals):
                 why = ORDER_EXCEPTIONS[("reorder_glyphs.reorder_glyphs", "for tag in coverage_containers")]
+        if why is None and f.fi.fq == "write_font._ensure_codepoints_will_have_glyphs":
+            # the reviewed exception above, recognised by what the loop does rather than by its spelling: it only creates glyphs keyed by name
+            # (ufo.newGlyph, an attribute of the new glyph) and collects their names; the order is fixed afterwards by sorted() (R08a-blank below)
+            loop = f.node if isinstance(f.node, ast.For) else None
+            if loop is None:
+                pm = {ch: par for par in ast.walk(f.fi.node) for ch in ast.iter_child_nodes(par)}
+                x = f.node
+                while x in pm and not isinstance(x, ast.For):
+                    x = pm[x]
+                loop = x if isinstance(x, ast.For) else None
+            if loop is not None and all(callee_tail(c) in ("newGlyph", "glyph_name", "append", "add") for st in loop.body for c in ast.walk(st) if isinstance(c, ast.Call)) \
+                    and any(callee_tail(c) == "newGlyph" for st in loop.body for c in ast.walk(st) if isinstance(c, ast.Call)) \
+                    and not any(isinstance(n, (ast.Return, ast.Yield, ast.Break)) for st in loop.body for n in ast.walk(st)):
+                why = ORDER_EXCEPTIONS[("write_font._ensure_codepoints_will_have_glyphs", "for codepoint in need_blanks")]
         if why:
             rr.exceptions_used.append(f"{f.fi.fq}: {cons}: {why}")
             continue
